@@ -378,6 +378,16 @@ def rand_text(rng, maxlen: int = 8, ascii_only: bool = False) -> str:
     return "".join(out)
 
 
+IDENT_START = "abzAZ_" + "éñΩж名"
+IDENT_REST = "abz09AZ_$." + "éñΩж名²٣５"
+
+
+def rand_ident(rng, maxlen: int = 6) -> str:
+    """identifier-shaped names (letters, digits, `_ $ .`), including non-ASCII letters and digits:
+    names a printer might decide to print bare"""
+    return rng.choice(IDENT_START) + "".join(rng.choice(IDENT_REST) for _ in range(rng.randint(0, maxlen - 1)))
+
+
 def _rand_scalar(rng) -> str:
     while True:
         c = rng.choice([rng.randrange(0x80), rng.randrange(0x80, 0x800), rng.randrange(0x800, 0x10000), rng.randrange(0x10000, 0x110000)])
@@ -495,7 +505,8 @@ class Gen:
         n = rng.choice([1, 1, 2, 3])
         names = []
         for _ in range(n):
-            names.append(hx(rng.choice(["foo", "a.b$c", "_x1", "main"]) if rng.random() < 0.5 else rand_text(rng, 5)))
+            rk = rng.random()
+            names.append(hx(rng.choice(["foo", "a.b$c", "_x1", "main"]) if rk < 0.4 else rand_ident(rng) if rk < 0.7 else rand_text(rng, 5)))
         return ["symref", names]
 
     def loc(self, depth: int) -> list:
@@ -593,7 +604,9 @@ class Gen:
         if depth > 0 and r < 0.20:
             keys: list[str] = []
             for _ in range(rng.choice([0, 1, 2, 3])):
-                kname = rng.choice(["a", "sym_name", "x.y", "_", "unit", "true", "loc", "f32"]) if rng.random() < 0.5 else rand_text(rng, 5)
+                rk = rng.random()
+                kname = (rng.choice(["a", "sym_name", "x.y", "_", "unit", "true", "loc", "f32"]) if rk < 0.4
+                         else rand_ident(rng) if rk < 0.7 else rand_text(rng, 5))
                 if kname not in keys:
                     keys.append(kname)
             return ["dict", [[hx(kk), self.attr(depth - 1)] for kk in keys]]
